@@ -565,6 +565,24 @@ def r_guard_exact(F, engine, fn, specs, invariants=(), label=None, optional=Fals
     for (b, cid, thr, nxt) in gbs:
         truth = [l for (t, l) in g.succ[b] if t == thr][0]
         cfs = cond_facts(fn, cid, truth)
+        if not cfs or any(f[0] in ("true", "false") and f[1][0] == "var" for f in cfs):
+            # a named condition that is a disjunction of refusals (`const bool bad = wraps || tooLong; if (bad) throw`):
+            # each disjunct is a refusal of its own, exactly as when the disjunction is written in the `if`
+            from .prove import term_cond_facts as _tcf
+            tt = fn.xterm(cid)
+            parts = []
+            def _split(t0, op):
+                if t0[0] == "op" and t0[1] == op:
+                    _split(t0[2], op)
+                    _split(t0[3], op)
+                else:
+                    parts.append(t0)
+            _split(tt, "||" if truth else "&&")
+            alt = set()
+            for d0 in parts:
+                alt |= _tcf(d0, truth)
+            if alt:
+                cfs = alt
         site = final_site_facts(engine, fn, cid) or set()
         defs = definitions(site)
         for f in cfs:
